@@ -11,6 +11,10 @@
 // `-time fw/table,fw/fw` in the harness' xform.args) and math/rand (verif/shim/vrand: PIT tokens).
 // The thread's Run() loop is NOT running; its arms are called through the hook file
 // /verif/hooks/fw/fw/verif_export.go (VerifInterest, VerifData, VerifTick).
+// Two things the real system does asynchronously can be switched on: faces that read what they
+// were handed only later (Config.LateRead, Send.Reread: the real link service queues the OutPkt and
+// serialises it in its own goroutine), and the PIT reaper driven by the table's own timer instead
+// of a fixed schedule (Config.OwnPitTimer, owntimer.go).
 //
 // Everything process-global is reset by New(), so a harness may build any number of instances
 // one after the other in one process (never two at the same time).
@@ -122,6 +126,19 @@ type Config struct {
 	// that sends (the forwarding thread). Used by free-running passes that need the thread to be
 	// busy at a chosen moment; the synchronous searches leave it nil.
 	OnSend func(face uint64)
+	// LateRead models a face that serialises what it was handed only AFTER the forwarding thread's
+	// pipeline call has returned (the real link service only queues the dispatch.OutPkt; its own
+	// goroutine reads OutPkt.PitToken, OutPkt.InFace and Pkt.Raw when it builds the frame): every Send
+	// returned by Inject and kept in the log is re-read from the OutPkt the face was handed (which
+	// the face kept as it was given, without copying what it points to) once VerifInterest /
+	// VerifData has returned. Send.Reread gives the same view at any later moment (a backlogged
+	// face).
+	LateRead bool
+	// OwnPitTimer: the PIT reaper of a thread runs only when the table's OWN timer has fired
+	// (PitCsTree.UpdateTimer(), armed by NewPitCS / Update() through time.AfterFunc on the virtual
+	// clock), as in Thread.Run(), instead of on the fixed schedule of Tick / RunFor. Use StepOwn /
+	// RunOwnFor to let time pass. See ownTimer below.
+	OwnPitTimer bool
 }
 
 // Kind of a recorded packet.
@@ -156,6 +173,22 @@ type Send struct {
 	// Raw LP-level metadata the packet object carried
 	NextHopFaceID  *uint64
 	CongestionMark *uint64
+	// what the face was handed, kept the way the real link service keeps it in its send queue: the
+	// OutPkt value (slice headers and pointers are NOT followed, nothing they point to is copied)
+	held    dispatch.OutPkt
+	hasHeld bool
+}
+
+// Reread returns the Send as a face sees it that serialises the packet NOW instead of at the time
+// of the SendPacket call: PIT token bytes, wire bytes, incoming-face id and the packet's LP
+// metadata are read again through the OutPkt the face was handed. The forwarding thread must not
+// change any of them once SendPacket has returned, so for a correct forwarder Reread equals the
+// Send at every later moment.
+func (s Send) Reread() Send {
+	if !s.hasHeld {
+		return s
+	}
+	return snapshot(s.Face, s.held)
 }
 
 func (s Send) String() string {
@@ -189,15 +222,30 @@ func (f *Face) SendPacket(out dispatch.OutPkt) {
 	if f.sim.Cfg.OnSend != nil {
 		f.sim.Cfg.OnSend(f.id)
 	}
-	s := Send{Face: f.id, InFace: out.InFace}
+	f.sim.log = append(f.sim.log, snapshot(f.id, out))
+}
+
+// snapshot reads everything a face reads from an OutPkt (and the L3 view the oracles use) now.
+func snapshot(face uint64, out dispatch.OutPkt) Send {
+	s := Send{Face: face, held: out, hasHeld: true}
+	if out.InFace != nil {
+		v := *out.InFace
+		s.InFace = &v
+	}
 	if len(out.PitToken) > 0 {
 		s.PitToken = append([]byte{}, out.PitToken...)
 	}
 	p := out.Pkt
 	if p != nil {
 		s.Wire = append([]byte{}, p.Raw...)
-		s.NextHopFaceID = p.NextHopFaceID
-		s.CongestionMark = p.CongestionMark
+		if p.NextHopFaceID != nil {
+			v := *p.NextHopFaceID
+			s.NextHopFaceID = &v
+		}
+		if p.CongestionMark != nil {
+			v := *p.CongestionMark
+			s.CongestionMark = &v
+		}
 		if p.L3 != nil && p.L3.Interest != nil {
 			s.Kind = KInterest
 			in := p.L3.Interest
@@ -217,7 +265,7 @@ func (f *Face) SendPacket(out dispatch.OutPkt) {
 		}
 	}
 	s.NameStr = NameStr(s.Name)
-	f.sim.log = append(f.sim.log, s)
+	return s
 }
 
 // Sim is one simulation instance.
@@ -232,6 +280,7 @@ type Sim struct {
 	DispatchDrops int
 	threads       []*fw.Thread
 	links         map[uint64]*face.NDNLPLinkService
+	own           *ownTimer
 }
 
 var logOnce sync.Once
@@ -239,7 +288,9 @@ var logOnce sync.Once
 // New resets every process-global the forwarder keeps (clock, rand, configuration, face table,
 // thread table, FIB, RIB, network regions) and builds a fresh thread, faces and FIB.
 func New(cfg Config) *Sim {
-	vtime.Reset(false)
+	stopOwnTimer()
+	// with OwnPitTimer the time.AfterFunc callbacks of the tables run when the clock passes them
+	vtime.Reset(cfg.OwnPitTimer)
 	vrand.Reset()
 	core.ShouldQuit = false
 
@@ -311,6 +362,9 @@ func New(cfg Config) *Sim {
 	s.Thread = s.threads[cfg.ThreadID]
 	fw.Threads = s.threads
 	dispatch.InitializeFWThreads(disp)
+	if cfg.OwnPitTimer {
+		s.startOwnTimer()
+	}
 
 	// FIB contents
 	for _, sc := range cfg.Strategies {
@@ -390,6 +444,19 @@ type LP struct {
 // dispatchInterest/dispatchData, followed by the forwarding thread's handling of the queued
 // packet. Returns the SendPacket calls made meanwhile.
 func (s *Sim) Inject(faceID uint64, wire []byte, lp LP) []Send {
+	mark := len(s.log)
+	out := s.inject(faceID, wire, lp)
+	if s.Cfg.LateRead {
+		// the faces serialise only now, after the pipeline call has returned
+		for i := mark; i < len(s.log); i++ {
+			s.log[i] = s.log[i].Reread()
+		}
+		out = s.log[mark:]
+	}
+	return out
+}
+
+func (s *Sim) inject(faceID uint64, wire []byte, lp LP) []Send {
 	f := s.Faces[faceID]
 	if f == nil {
 		panic(fmt.Sprintf("fwsim: unknown face %d", faceID))
